@@ -387,18 +387,28 @@ def cubic_root_impl(p, q):
 
 
 def cubic_relation_ok(p, q, r, alpha_pos):
-    """hypothesis of C02_sqL2SqAbs on the root: r >= 0, r^3 + p r + q = 0 (relative residual), and r = 0 only
-    when p >= 0 (i.e. alpha*y <= 1).  Entries with alpha = 0 are not constrained (the prox returns v there)."""
+    """hypothesis `CubicRootOK` of C02_sqL2SqAbs on the root returned by the code: r >= 0, r^3 + p r + q = 0, and r = 0
+    only when p >= 0 (i.e. alpha*y <= 1).  For q <= 0 these conditions determine r uniquely (the positive root if q < 0;
+    sqrt(-p) resp. 0 if q = 0), so the check is |r - r_expected| <= 1e-6 (1 + r_expected) with r_expected from numpy.roots.
+    Entries with alpha = 0 are not constrained (the prox returns v there)."""
     bad = []
     for i, (pi, qi, ri, ap) in enumerate(zip(p, q, r, alpha_pos)):
         if not ap:
             continue
-        res = ri**3 + pi * ri + qi
-        scale = abs(ri) ** 3 + abs(pi * ri) + abs(qi) + 1e-30
-        if ri < -1e-12 or abs(res) > 1e-7 * max(scale, 1e-6):
-            bad.append((i, "residual", pi, qi, ri, res))
-        elif abs(ri) <= 1e-9 and pi < -1e-9 and abs(qi) <= 1e-12:
-            bad.append((i, "zero-root-but-p<0", pi, qi, ri, res))
+        if qi == 0:
+            expect = math.sqrt(-pi) if pi < 0 else 0.0
+        else:
+            rts = np.roots([1.0, 0.0, pi, qi])
+            pos = [float(np.real(t)) for t in rts if abs(np.imag(t)) <= 1e-7 * (1 + abs(t)) and np.real(t) > 0]
+            if not pos:
+                bad.append((i, "no-positive-root", pi, qi, ri, float("nan")))
+                continue
+            expect = min(pos, key=lambda t: abs(t - ri))
+            if len(pos) > 1 and max(pos) - min(pos) > 1e-5 * (1 + max(pos)):
+                bad.append((i, "several-positive-roots", pi, qi, ri, float("nan")))
+                continue
+        if not (abs(ri - expect) <= 1e-6 * (1.0 + abs(expect))):
+            bad.append((i, "root", pi, qi, ri, expect))
     return bad
 
 
